@@ -32,6 +32,10 @@ def step (s : String) : Option (CV → Outcome CV) :=
   | ["L2"] => some (intOp (fun a _ => .val (.int (a * 2))) 0)
   | ["Lid"] => some (fun v => .val v)
   | ["Lnil"] => some (fun _ => .val .nil)
+  | ["Sb2len"] => some (fun v => match v with
+      | .int a => .val (.int a)
+      | .nil => .err ⟨"NoPropErr", ""⟩
+      | _ => typeErr)
   | ["Lnoprop"] => some (fun _ => .err ⟨"NoPropErr", ""⟩)
   | ["Lraise", k] => some (fun _ => .err ⟨k, ""⟩)
   | _ => none
@@ -60,7 +64,7 @@ def handle (args : List String) : String × String :=
         | ["A"] => renderE e
         | ["val"] => render (e.valOr .nil)
         | ["err"] => render (e.errOr .nil wrapErr)
-        | ["valp"] => toString e.isVal
+        | ["valp"] => toString (e.isVal (fun v => match v with | .nil => true | _ => false))
         | ["errp"] => toString e.isErr
         | ["or", d] => render (e.orElse (.int (d.toInt?.getD 0)))
         | ["catch", k] => renderE (e.catch k (fun _ => .sym "caught"))
